@@ -1069,10 +1069,11 @@ fn enum_scn(idx: u64, len: u32) -> Scn {
 }
 
 fn random_size(rng: &mut Rng) -> (u16, u16) {
-    let w = match rng.below(8) {
+    let w = match rng.below(9) {
         0 => 75,
         1 => 76,
         2 => 77,
+        8 => 106 + rng.below(6) as u16,
         3 => 1 + rng.below(75) as u16,
         4 => 200 + rng.below(51) as u16,
         _ => 76 + rng.below(80) as u16,
